@@ -1,5 +1,5 @@
 (* C12 — lemmas about the arbitrator decision model. *)
-From Coq Require Import List NArith ZArith Bool Lia.
+From Coq Require Import List NArith ZArith Bool Lia Btauto.
 From LV Require Import Arb.ActionsModel.
 Import ListNotations.
 Local Open Scope N_scope.
@@ -198,6 +198,15 @@ Lemma check_commit_idle e height l :
 Proof. intros H. unfold check_commit. rewrite H. reflexivity. Qed.
 
 (* candidates of the two "diff" classifiers *)
+Lemma check_local_nochain fixed e height t c cf :
+  is_chain t = false ->
+  check_local fixed e height t c cf =
+  merge (full_commit e height (c_local c)) (check_dangling e height c cf).
+Proof.
+  intros H. unfold check_local. rewrite H, !andb_false_r.
+  now rewrite check_commit_nochain.
+Qed.
+
 Definition dangling_cand (e : env) (height : N) (c : csets) (confirmed : bool) : list htlc :=
   filter (fun h => (should_go e h (e_out_delta e) height || confirmed)
                    && negb (e_pre e (h_hash h)))
@@ -219,6 +228,32 @@ Proof. reflexivity. Qed.
 (* ------------------------------------------------------------------ *)
 (* advanceState on the paths of the property                           *)
 
+Lemma advance_eq fixed e f st u height t conf active logres acc :
+  advance fixed e (S f) st u height t conf active logres acc =
+  let nx := fst (adv_step fixed e st u height t conf active logres) in
+  let ef := snd (adv_step fixed e st u height t conf active logres) in
+  let unres' := (u + length (filter persisted (f_resolvers ef)))%nat in
+  let acc' := eff_app acc ef in
+  if is_error nx then Some (st, unres', acc')
+  else if same_state nx st then Some (nx, unres', acc')
+  else advance fixed e f nx unres' height t conf active logres acc'.
+Proof. reflexivity. Qed.
+
+Ltac adv :=
+  rewrite advance_eq;
+  cbn [adv_step state_step is_chain andb fst snd is_error same_state legacy_breach
+       eff_app no_eff f_fail f_final f_resolvers f_force f_resolved app].
+
+Ltac adv_simpl :=
+  cbn [fst snd is_error same_state f_resolvers filter length Nat.add eff_app app
+       f_fail f_final f_force f_resolved no_eff].
+
+Ltac adv_done :=
+  solve [ do 3 eexists; split; [reflexivity|];
+          unfold eff_app, no_eff;
+          cbn [f_fail f_final f_resolvers f_force f_resolved closed_state app N.add];
+          rewrite ?app_nil_r; repeat split; reflexivity ].
+
 Definition is_force_close_kind (t : trigger) : bool :=
   match t with TLocalClose | TRemoteClose => true | _ => false end.
 
@@ -226,19 +261,21 @@ Definition is_force_close_kind (t : trigger) : bool :=
 Definition close_fail (fixed : bool) (e : env) (st : astate) (height : N) (t : trigger)
            (k : ckey) (c : csets) (r : resolutions) : list N :=
   (match st with
-   | SDefault => nodup_n (idxs (a_faildust (construct e height t k c)))
+   | SDefault => nodup_n (idxs (a_faildust (construct fixed e height t k c)))
    | _ => []
    end) ++
   (if res_empty r && cs_empty c then []
-   else nodup_n (idxs (closed_failback_set fixed c (construct e height t k c)))).
+   else nodup_n (idxs (closed_failback_set fixed c (construct fixed e height t k c)))).
 
-Definition close_final (e : env) (height : N) (t : trigger)
+Definition close_final (fixed : bool) (e : env) (height : N) (t : trigger)
            (k : ckey) (c : csets) (r : resolutions) : list N :=
-  if res_empty r && cs_empty c then [] else idxs (a_indust (construct e height t k c)).
+  if res_empty r && cs_empty c then []
+  else idxs (a_indust (construct fixed e height t k c)).
 
-Definition close_resolvers (e : env) (height : N) (t : trigger)
+Definition close_resolvers (fixed : bool) (e : env) (height : N) (t : trigger)
            (k : ckey) (c : csets) (r : resolutions) : list (rkind * N) :=
-  if res_empty r && cs_empty c then [] else prep_resolutions r (construct e height t k c).
+  if res_empty r && cs_empty c then []
+  else prep_resolutions r (construct fixed e height t k c).
 
 Lemma advance_close fixed e st u height t k c active r :
   (st = SDefault \/ st = SCommitmentBroadcasted) ->
@@ -247,23 +284,772 @@ Lemma advance_close fixed e st u height t k c active r :
     advance fixed e fuel0 st u height t (Some (k, c)) active (Some r) no_eff
     = Some (st', u', ef) /\
     f_fail ef = close_fail fixed e st height t k c r /\
-    f_final ef = close_final e height t k c r /\
-    f_resolvers ef = close_resolvers e height t k c r /\
+    f_final ef = close_final fixed e height t k c r /\
+    f_resolvers ef = close_resolvers fixed e height t k c r /\
     f_force ef = 0 /\
     closed_state st' = true.
 Proof.
   intros Hst Ht Hb.
-  unfold close_fail, close_final, close_resolvers.
+  unfold close_fail, close_final, close_resolvers, fuel0.
+  set (A := construct fixed e height t k c).
+  assert (EA : construct fixed e height t k c = A) by reflexivity.
+  clearbody A.
   destruct (res_empty r && cs_empty c) eqn:Emp;
-    destruct Hst as [-> | ->]; destruct t; try discriminate Ht;
-      cbn -[construct prep_resolutions closed_failback_set nodup_n];
-      rewrite ?Emp, ?Hb;
-      cbn -[construct prep_resolutions closed_failback_set nodup_n];
-      rewrite ?Emp, ?Hb;
-      cbn -[construct prep_resolutions closed_failback_set nodup_n].
-  all: try (destruct (Nat.eqb _ 0);
-            cbn -[construct prep_resolutions closed_failback_set nodup_n]).
-  all: do 3 eexists; (split; [reflexivity|]);
-    cbn -[construct prep_resolutions closed_failback_set nodup_n];
-    rewrite ?app_nil_r; repeat split; reflexivity.
+    destruct Hst as [-> | ->]; destruct t; try discriminate Ht.
+  all: repeat first
+      [ adv_done
+      | progress (rewrite ?andb_false_r, ?Emp, ?Hb, ?EA; adv_simpl)
+      | match goal with
+        | |- context [if Nat.eqb ?x 0 then _ else _] => destruct (Nat.eqb x 0)
+        end
+      | adv ].
+Qed.
+
+(* chain / user trigger in StateDefault *)
+Lemma advance_trigger fixed e u height t active logres :
+  (t = TChain \/ t = TUser) ->
+  let A := check_local fixed e height t active false in
+  advance fixed e fuel0 SDefault u height t None active logres no_eff =
+  if acts_empty A && is_chain t then Some (SDefault, u, no_eff)
+  else Some (SCommitmentBroadcasted, u,
+             mkEff (nodup_n (idxs (a_faildust A))) [] [] 1 0).
+Proof.
+  intros Ht A. unfold fuel0.
+  assert (EA : check_local fixed e height t active false = A) by reflexivity.
+  clearbody A.
+  destruct Ht as [-> | ->]; adv; rewrite EA.
+  - destruct (acts_empty A); cbn [andb fst snd is_error same_state].
+    + cbn [f_resolvers no_eff filter length eff_app app f_fail f_final f_force f_resolved].
+      now rewrite Nat.add_0_r.
+    + adv. adv_simpl. adv. adv_simpl.
+      unfold eff_app, no_eff; cbn. rewrite ?Nat.add_0_r, ?app_nil_r. reflexivity.
+  - rewrite andb_false_r. cbn [fst snd is_error same_state].
+    adv. adv_simpl. adv. adv_simpl.
+    unfold eff_app, no_eff; cbn. rewrite ?Nat.add_0_r, ?app_nil_r. reflexivity.
+Qed.
+
+(* breach *)
+Lemma advance_breach fixed e st u height c active r :
+  (st = SDefault \/ st = SCommitmentBroadcasted) -> r_breach r = true ->
+  exists st' u' ef,
+    advance fixed e fuel0 st u height TBreachClose (Some (CRemote, c)) active (Some r) no_eff
+    = Some (st', u', ef) /\
+    f_fail ef =
+      (match st with
+       | SDefault =>
+         nodup_n (idxs (a_faildust (construct fixed e height TBreachClose CRemote c)))
+       | _ => []
+       end) ++ nodup_n (idxs (outs (c_remote c) ++ outs (c_pending c))) /\
+    f_resolvers ef = (if r_anchor r then [(RAnchor, 0)] else []) ++ [(RBreach, 0)] /\
+    f_force ef = 0.
+Proof.
+  intros Hst Hb. unfold fuel0.
+  set (A := construct fixed e height TBreachClose CRemote c).
+  assert (EA : construct fixed e height TBreachClose CRemote c = A) by reflexivity.
+  clearbody A.
+  assert (Emp : res_empty r = false).
+  { unfold res_empty. rewrite Hb. now rewrite !andb_false_r. }
+  destruct Hst as [-> | ->].
+  all: repeat first
+      [ solve [ do 3 eexists; split; [reflexivity|];
+                unfold eff_app, no_eff;
+                cbn [f_fail f_final f_resolvers f_force f_resolved app N.add];
+                unfold prep_resolutions; rewrite ?Hb, ?app_nil_r; repeat split; reflexivity ]
+      | progress (rewrite ?andb_false_r, ?Emp, ?Hb, ?EA; cbn [andb]; adv_simpl)
+      | match goal with
+        | |- context [if Nat.eqb ?x 0 then _ else _] => destruct (Nat.eqb x 0)
+        end
+      | adv ].
+Qed.
+
+(* ------------------------------------------------------------------ *)
+(* deadline rule                                                       *)
+
+From Coq Require Import ZifyBool ZifyN ZifyNat.
+Ltac Zify.zify_post_hook ::= Z.div_mod_to_equations.
+
+Lemma u32_sub_exact a b : a < u32 -> b <= a -> u32_sub a b = a - b.
+Proof. unfold u32_sub, u32. intros. lia. Qed.
+
+Definition acts_by (e : env) (h : htlc) : Prop :=
+  h_incoming h = true \/ e_fwd e (h_idx h) = true \/ (e_grace e < e_uptime e)%Z.
+
+Lemma should_go_due e h delta height :
+  h_expiry h < u32 -> delta <= h_expiry h -> h_expiry h - delta <= height ->
+  acts_by e h -> should_go e h delta height = true.
+Proof.
+  intros A B C D. unfold acts_by in D. unfold should_go. rewrite u32_sub_exact by assumption.
+  destruct (N.ltb_spec height (h_expiry h - delta)); [lia|].
+  destruct (h_incoming h) eqn:Inc; [reflexivity|].
+  destruct D as [D|[D|D]]; [discriminate| now rewrite D |].
+  apply Z.ltb_lt in D. rewrite D. apply orb_true_r.
+Qed.
+
+Lemma nil_b_in {A} (x : A) l : In x l -> nil_b l = false.
+Proof. destruct l; [intros []|reflexivity]. Qed.
+
+Lemma nil_b_app_false_l {A} (a b : list A) : nil_b a = false -> nil_b (a ++ b) = false.
+Proof. destruct a; [discriminate|reflexivity]. Qed.
+
+Lemma nil_b_app {A} (a b : list A) : nil_b (a ++ b) = nil_b a && nil_b b.
+Proof. destruct a; reflexivity. Qed.
+
+Lemma acts_empty_merge a x : acts_empty (merge a x) = acts_empty a && acts_empty x.
+Proof.
+  unfold acts_empty, merge.
+  cbn [a_timeout a_claim a_faildust a_outwatch a_inwatch a_indust a_dangling].
+  rewrite !nil_b_app. btauto.
+Qed.
+
+Lemma acts_empty_merge_l a x : acts_empty a = false -> acts_empty (merge a x) = false.
+Proof. intros H. now rewrite acts_empty_merge, H. Qed.
+
+Lemma acts_empty_merge_r a x : acts_empty x = false -> acts_empty (merge a x) = false.
+Proof. intros H. rewrite acts_empty_merge, H. apply andb_false_r. Qed.
+
+(* every HTLC of a commitment lands in some category of the full classification *)
+Lemma full_commit_nonempty0 e height l h :
+  In h l -> acts_empty (full_commit e height l) = false.
+Proof.
+  intros I. unfold acts_empty, full_commit.
+  cbn [a_timeout a_claim a_faildust a_outwatch a_inwatch a_indust a_dangling].
+  destruct (h_incoming h) eqn:Inc; destruct (h_dust h) eqn:D.
+  - assert (F : nil_b (filter h_dust (ins l)) = false).
+    { apply nil_b_in with h. apply filter_In. split; [|assumption]. now apply in_ins. }
+    rewrite F. now rewrite !andb_false_r.
+  - assert (F : nil_b (filter (fun h => negb (h_dust h)) (ins l)) = false).
+    { apply nil_b_in with h. apply filter_In. split.
+      - now apply in_ins. - now rewrite D. }
+    rewrite F. now rewrite !andb_false_r.
+  - assert (F : nil_b (filter h_dust (outs l)) = false).
+    { apply nil_b_in with h. apply filter_In. split; [|assumption]. now apply in_outs. }
+    rewrite F. now rewrite !andb_false_r.
+  - destruct (go_out e height h) eqn:G.
+    + assert (F : nil_b (filter (fun h => negb (h_dust h) && go_out e height h) (outs l))
+                  = false).
+      { apply nil_b_in with h. apply filter_In. split.
+        - now apply in_outs. - now rewrite D, G. }
+      rewrite F. reflexivity.
+    + assert (F : nil_b (filter (fun h => negb (h_dust h) && negb (go_out e height h))
+                                (outs l)) = false).
+      { apply nil_b_in with h. apply filter_In. split.
+        - now apply in_outs. - now rewrite D, G. }
+      rewrite F. now rewrite !andb_false_r.
+Qed.
+
+Definition due (e : env) (h : htlc) (height : N) : Prop :=
+  let delta := if h_incoming h then e_in_delta e else e_out_delta e in
+  h_expiry h < u32 /\ delta <= h_expiry h /\ h_expiry h - delta <= height /\
+  (if h_incoming h then e_pre e (h_hash h) = true
+   else e_fwd e (h_idx h) = true \/ (e_grace e < e_uptime e)%Z).
+
+Lemma due_have e h height l :
+  In h l -> due e h height -> have_chain_actions e height l = true.
+Proof.
+  intros I (A & B & C & D). unfold have_chain_actions.
+  destruct (h_incoming h) eqn:Inc.
+  - apply orb_true_iff. right. apply existsb_exists. exists h. split; [now apply in_ins|].
+    rewrite D. apply should_go_due; try assumption. left. assumption.
+  - apply orb_true_iff. left. apply existsb_exists. exists h. split; [now apply in_outs|].
+    apply should_go_due; try assumption. right. assumption.
+Qed.
+
+Lemma check_local_due fixed e h height active :
+  In h (c_local active) -> due e h height ->
+  acts_empty (check_local fixed e height TChain active false) = false.
+Proof.
+  intros I D. unfold check_local.
+  rewrite (check_commit_have e height TChain (c_local active)) by (eapply due_have; eassumption).
+  rewrite (full_commit_nonempty0 e height (c_local active) h I).
+  rewrite andb_false_r. cbn [andb].
+  apply acts_empty_merge_l. eapply full_commit_nonempty0; eassumption.
+Qed.
+
+Lemma on_block_default fixed e a height active :
+  ar_state a = SDefault ->
+  on_block fixed e a height active =
+  let A := check_local fixed e height TChain active false in
+  if acts_empty A then Some (a, no_eff)
+  else Some (mkArb SCommitmentBroadcasted (ar_unres a) (ar_res a),
+             mkEff (nodup_n (idxs (a_faildust A))) [] [] 1 0).
+Proof.
+  intros S. unfold on_block, run_adv. rewrite S. cbn [closed_state].
+  rewrite advance_trigger by now left.
+  cbn [is_chain]. rewrite andb_true_r.
+  destruct (acts_empty _); [|reflexivity].
+  destruct a as [s u r]. cbn in S. now subst.
+Qed.
+
+Lemma on_block_broadcasted fixed e a height active :
+  ar_state a = SCommitmentBroadcasted -> on_block fixed e a height active = Some (a, no_eff).
+Proof. intros S. unfold on_block. now rewrite S. Qed.
+
+Lemma on_user_default fixed e a height active :
+  ar_state a = SDefault ->
+  on_user fixed e a height active =
+  Some (mkArb SCommitmentBroadcasted (ar_unres a) (ar_res a),
+        mkEff (nodup_n (idxs (a_faildust (check_local fixed e height TUser active false))))
+              [] [] 1 0).
+Proof.
+  intros S. unfold on_user, run_adv. rewrite S.
+  rewrite advance_trigger by now right.
+  cbn [is_chain]. now rewrite andb_false_r.
+Qed.
+
+(* deadline: one block *)
+Lemma deadline_block fixed e active height h :
+  In h (c_local active) -> due e h height ->
+  exists a' ef, on_block fixed e arb0 height active = Some (a', ef) /\
+                ar_state a' = SCommitmentBroadcasted /\ f_force ef = 1.
+Proof.
+  intros I D. rewrite on_block_default by reflexivity. cbv zeta.
+  rewrite (check_local_due fixed e h height active I D).
+  do 2 eexists. split; [reflexivity|]. split; reflexivity.
+Qed.
+
+(* a run of block epochs over an unchanged set of HTLCs *)
+Fixpoint run_blocks (fixed : bool) (e : env) (a : arb) (active : csets) (hs : list N)
+         (acc : eff) : option (arb * eff) :=
+  match hs with
+  | [] => Some (a, acc)
+  | x :: r =>
+    match on_block fixed e a x active with
+    | None => None
+    | Some (a', ef) => run_blocks fixed e a' active r (eff_app acc ef)
+    end
+  end.
+
+Lemma run_blocks_broadcasted fixed e a active hs acc :
+  ar_state a = SCommitmentBroadcasted ->
+  run_blocks fixed e a active hs acc = Some (a, acc).
+Proof.
+  intros S. revert acc. induction hs as [|x r IH]; intros acc; cbn [run_blocks]; [reflexivity|].
+  rewrite on_block_broadcasted by assumption. rewrite IH.
+  destruct acc; unfold eff_app, no_eff; cbn. now rewrite !app_nil_r, N.add_0_r, N.add_0_r.
+Qed.
+
+Lemma deadline_blocks fixed e active hs h x :
+  In h (c_local active) -> In x hs -> due e h x ->
+  forall a acc, ar_state a = SDefault ->
+  exists a' ef, run_blocks fixed e a active hs acc = Some (a', ef) /\
+                ar_state a' = SCommitmentBroadcasted /\ f_force ef = f_force acc + 1.
+Proof.
+  intros I Ix D. induction hs as [|y r IH]; [destruct Ix|].
+  intros a acc S. cbn [run_blocks]. rewrite on_block_default by assumption. cbv zeta.
+  destruct (acts_empty (check_local fixed e y TChain active false)) eqn:E.
+  - destruct Ix as [->|Ix].
+    + rewrite (check_local_due fixed e h x active I D) in E. discriminate.
+    + destruct (IH Ix a (eff_app acc no_eff) S) as (a' & ef & R & S' & F).
+      exists a', ef. split; [assumption|]. split; [assumption|].
+      rewrite F. unfold eff_app, no_eff; cbn. lia.
+  - rewrite run_blocks_broadcasted by reflexivity.
+    do 2 eexists. split; [reflexivity|]. split; [reflexivity|].
+    unfold eff_app; cbn. reflexivity.
+Qed.
+
+(* no spurious force close *)
+Lemma split_fail_empty cand : acts_empty (split_fail cand) = true -> cand = [].
+Proof.
+  unfold acts_empty, split_fail.
+  cbn [a_timeout a_claim a_faildust a_outwatch a_inwatch a_indust a_dangling nil_b andb].
+  destruct cand as [|h r]; [reflexivity|]. cbn [filter].
+  destruct (h_dust h); cbn [negb nil_b andb]; [discriminate|].
+  rewrite andb_false_r. discriminate.
+Qed.
+
+Definition go_witness (e : env) (active : csets) (height : N) (h : htlc) : Prop :=
+  (In h (outs (c_local active)) /\ should_go e h (e_out_delta e) height = true) \/
+  (In h (ins (c_local active)) /\ e_pre e (h_hash h) = true /\
+   should_go e h (e_in_delta e) height = true) \/
+  (In h (outs (c_remote active) ++ outs (c_pending active)) /\
+   ~ In (h_idx h) (idxs (outs (c_local active))) /\
+   should_go e h (e_out_delta e) height = true /\ e_pre e (h_hash h) = false).
+
+Lemma have_witness e active height :
+  have_chain_actions e height (c_local active) = true ->
+  exists h, go_witness e active height h.
+Proof.
+  unfold have_chain_actions. intros H. apply orb_true_iff in H as [H|H];
+    apply existsb_exists in H as (h & I & P); exists h.
+  - left. tauto.
+  - right. left. apply andb_true_iff in P. tauto.
+Qed.
+
+Lemma dangling_witness e active height h :
+  In h (dangling_cand e height active false) -> go_witness e active height h.
+Proof.
+  unfold dangling_cand. intros I. apply filter_In in I as [I P].
+  apply filter_In in I as [I Q]. right. right.
+  rewrite orb_false_r in P. apply andb_true_iff in P as [P1 P2].
+  apply negb_true_iff in P2, Q. apply mem_idx_false in Q.
+  apply merged_in in I. rewrite in_app_iff. tauto.
+Qed.
+
+Lemma no_spurious fixed e active height a' ef :
+  on_block fixed e arb0 height active = Some (a', ef) ->
+  f_force ef <> 0 ->
+  exists h, go_witness e active height h.
+Proof.
+  rewrite on_block_default by reflexivity. cbv zeta.
+  destruct (acts_empty (check_local fixed e height TChain active false)) eqn:E.
+  - intros [= <- <-]. cbn. congruence.
+  - intros _ _. unfold check_local in E.
+    destruct (have_chain_actions e height (c_local active)) eqn:Hv.
+    + now apply have_witness.
+    + rewrite check_commit_idle in E by assumption.
+      assert (D : acts_empty (check_dangling e height active false) = false).
+      { destruct (acts_empty (check_dangling e height active false)) eqn:D; [|reflexivity].
+        exfalso. cbn [acts_empty no_actions a_timeout a_claim a_faildust a_outwatch a_inwatch
+                      a_indust a_dangling nil_b andb negb] in E.
+        rewrite andb_false_r in E. cbn [andb] in E.
+        rewrite acts_empty_merge in E. rewrite D in E. cbn in E. discriminate. }
+      rewrite check_dangling_eq in D.
+      destruct (dangling_cand e height active false) as [|h r] eqn:C.
+      * cbn in D. discriminate.
+      * exists h. apply dangling_witness. rewrite C. now left.
+Qed.
+
+(* ------------------------------------------------------------------ *)
+(* classification after a commitment confirmed                         *)
+
+Definition cand (e : env) (height : N) (k : ckey) (c : csets) : list htlc :=
+  match k with
+  | CLocal => dangling_cand e height c true
+  | CRemote => diff_cand e c false
+  | CPending => diff_cand e c true
+  end.
+
+Lemma construct_eq fixed e height t k c :
+  is_chain t = false ->
+  construct fixed e height t k c =
+  merge (full_commit e height (conf_set k c)) (split_fail (cand e height k c)).
+Proof.
+  intros H. destruct k; unfold construct, check_remote, cand, conf_set.
+  - now rewrite check_local_nochain.
+  - now rewrite check_commit_nochain.
+  - now rewrite check_commit_nochain.
+Qed.
+
+Definition wf (c : csets) : Prop :=
+  NoDup (idxs (outs (c_local c))) /\ NoDup (idxs (ins (c_local c))) /\
+  NoDup (idxs (outs (c_remote c))) /\ NoDup (idxs (ins (c_remote c))) /\
+  NoDup (idxs (outs (c_pending c))) /\ NoDup (idxs (ins (c_pending c))).
+
+Lemma wf_outs k c : wf c -> NoDup (idxs (outs (conf_set k c))).
+Proof. unfold wf. destruct k; cbn [conf_set]; tauto. Qed.
+Lemma wf_ins k c : wf c -> NoDup (idxs (ins (conf_set k c))).
+Proof. unfold wf. destruct k; cbn [conf_set]; tauto. Qed.
+
+Lemma cand_props e height k c m :
+  In m (cand e height k c) ->
+  ~ In (h_idx m) (idxs (outs (conf_set k c))) /\ e_pre e (h_hash m) = false /\
+  (In m (outs (c_remote c)) \/ In m (outs (c_pending c))).
+Proof.
+  destruct k; unfold cand, dangling_cand, diff_cand, conf_set; intros I.
+  - apply filter_In in I as [I P]. apply filter_In in I as [I Q].
+    apply andb_true_iff in P as [_ P]. apply negb_true_iff in P, Q.
+    apply mem_idx_false in Q. apply merged_in in I. tauto.
+  - apply filter_In in I as [I P]. apply andb_true_iff in P as [Q P].
+    apply negb_true_iff in P, Q. apply mem_idx_false in Q. tauto.
+  - apply filter_In in I as [I P]. apply andb_true_iff in P as [Q P].
+    apply negb_true_iff in P, Q. apply mem_idx_false in Q. tauto.
+Qed.
+
+Lemma cand_nodup e height k c : wf c -> NoDup (idxs (cand e height k c)).
+Proof.
+  intros W. destruct k; unfold cand, dangling_cand, diff_cand.
+  - do 2 apply nodup_idxs_filter. apply merged_nodup.
+  - apply nodup_idxs_filter. unfold wf in W. tauto.
+  - apply nodup_idxs_filter. unfold wf in W. tauto.
+Qed.
+
+(* a merged record and a candidate with the same index agree on dust-ness *)
+Lemma cand_merged_dust e height k c m m' :
+  wf c -> In m (remote_merged c) -> In m' (cand e height k c) -> h_idx m = h_idx m' ->
+  h_dust m = h_dust m'.
+Proof.
+  intros W Im Ic E. destruct k; unfold cand, dangling_cand, diff_cand in Ic.
+  - apply filter_In in Ic as [Ic _]. apply filter_In in Ic as [Ic _].
+    f_equal. eapply nodup_idx_inj; [apply merged_nodup| | |]; eassumption.
+  - apply filter_In in Ic as [Ic P]. apply andb_true_iff in P as [Q _].
+    apply negb_true_iff in Q. apply mem_idx_false in Q.
+    apply merged_in in Im as [Im|Im].
+    + exfalso. apply Q. apply in_idxs. exists m. tauto.
+    + f_equal. unfold wf in W. eapply nodup_idx_inj with (l := outs (c_pending c)); tauto.
+  - apply filter_In in Ic as [Ic P]. apply andb_true_iff in P as [Q _].
+    apply negb_true_iff in Q. apply mem_idx_false in Q.
+    apply merged_in in Im as [Im|Im].
+    + f_equal. unfold wf in W. eapply nodup_idx_inj with (l := outs (c_remote c)); tauto.
+    + exfalso. apply Q. apply in_idxs. exists m. tauto.
+Qed.
+
+(* coverage: an offered HTLC that is only on a non-confirmed commitment, with
+   no known preimage, is a candidate *)
+Definition no_pre (e : env) (c : csets) (x : N) : Prop :=
+  forall h, In h (outs (c_remote c) ++ outs (c_pending c)) -> h_idx h = x ->
+            e_pre e (h_hash h) = false.
+
+Definition others (k : ckey) (c : csets) : list htlc :=
+  match k with
+  | CLocal => outs (c_remote c) ++ outs (c_pending c)
+  | CRemote => outs (c_pending c)
+  | CPending => outs (c_remote c)
+  end.
+
+Lemma cand_covers e height k c x :
+  In x (idxs (others k c)) -> ~ In x (idxs (outs (conf_set k c))) -> no_pre e c x ->
+  In x (idxs (cand e height k c)).
+Proof.
+  intros I NC NP. destruct k; unfold others in I; unfold cand, dangling_cand, diff_cand;
+    cbn [conf_set] in NC.
+  - apply merged_covers in I. apply in_idxs in I as (m & Im & E).
+    apply in_idxs. exists m. split; [|assumption].
+    apply filter_In. split.
+    + apply filter_In. split; [assumption|]. apply negb_true_iff. apply mem_idx_false.
+      now rewrite E.
+    + rewrite orb_true_r. cbn [andb]. apply negb_true_iff. apply NP; [|assumption].
+      apply merged_in in Im. now apply in_app_iff.
+  - apply in_idxs in I as (m & Im & E). apply in_idxs. exists m. split; [|assumption].
+    apply filter_In. split; [assumption|]. apply andb_true_iff. split.
+    + apply negb_true_iff. apply mem_idx_false. now rewrite E.
+    + apply negb_true_iff. apply NP; [|assumption]. apply in_app_iff. now right.
+  - apply in_idxs in I as (m & Im & E). apply in_idxs. exists m. split; [|assumption].
+    apply filter_In. split; [assumption|]. apply andb_true_iff. split.
+    + apply negb_true_iff. apply mem_idx_false. now rewrite E.
+    + apply negb_true_iff. apply NP; [|assumption]. apply in_app_iff. now left.
+Qed.
+
+(* counting in lists with unique indexes *)
+Lemma cnt_nodup_list x l : NoDup l -> In x l -> cnt x l = 1%nat.
+Proof.
+  induction l as [|y l IH]; intros ND I; [destruct I|].
+  inversion ND as [|? ? NI ND']; subst. cbn [cnt].
+  destruct (N.eqb_spec y x) as [->|ne].
+  - assert (cnt x l = O) by now apply cnt_zero_iff. lia.
+  - destruct I as [E|I]; [congruence|]. rewrite IH by assumption. lia.
+Qed.
+
+Lemma cnt_idxs_filter P l h :
+  NoDup (idxs l) -> In h l ->
+  cnt (h_idx h) (idxs (filter P l)) = if P h then 1%nat else O.
+Proof.
+  intros ND I. destruct (P h) eqn:Ph.
+  - apply cnt_nodup_list; [now apply nodup_idxs_filter|].
+    now apply in_idxs_filter_uniq.
+  - apply cnt_zero_iff. rewrite in_idxs_filter_uniq by assumption. congruence.
+Qed.
+
+Lemma filter_filter_and {A} (P Q : A -> bool) l :
+  filter P (filter Q l) = filter (fun x => Q x && P x) l.
+Proof.
+  induction l as [|x l IH]; [reflexivity|]. cbn [filter].
+  destruct (Q x); cbn [filter andb]; [destruct (P x)|]; now rewrite IH.
+Qed.
+
+(* resolvers *)
+Definition out_kind (k : rkind) : bool :=
+  match k with RTimeout | ROutContest => true | _ => false end.
+Definition in_kind (k : rkind) : bool :=
+  match k with RSuccess | RInContest => true | _ => false end.
+Definition res_idxs (p : rkind -> bool) (l : list (rkind * N)) : list N :=
+  map snd (filter (fun q => p (fst q)) l).
+
+Lemma res_idxs_app p a b : res_idxs p (a ++ b) = res_idxs p a ++ res_idxs p b.
+Proof. unfold res_idxs. now rewrite filter_app, map_app. Qed.
+
+Lemma res_idxs_mk p k res l :
+  res_idxs p (mk_resolvers k res l) =
+  if p k then idxs (filter (has_res res) l) else [].
+Proof.
+  unfold res_idxs, mk_resolvers, idxs.
+  induction (filter (has_res res) l) as [|h r IH]; cbn [map filter fst].
+  - now destruct (p k).
+  - destruct (p k); cbn [map snd]; [now rewrite IH| assumption].
+Qed.
+
+Lemma prep_out_idxs r A :
+  r_breach r = false ->
+  res_idxs out_kind (prep_resolutions r A) =
+  idxs (filter (has_res (r_out r)) (a_timeout A)) ++
+  idxs (filter (has_res (r_out r)) (a_outwatch A)).
+Proof.
+  intros Hb. unfold prep_resolutions. rewrite Hb.
+  rewrite !res_idxs_app, !res_idxs_mk. cbn [out_kind].
+  destruct (r_anchor r), (r_commit r); cbn; now rewrite ?app_nil_r.
+Qed.
+
+Lemma prep_in_idxs r A :
+  r_breach r = false ->
+  res_idxs in_kind (prep_resolutions r A) =
+  idxs (filter (has_res (r_in r)) (a_claim A)) ++
+  idxs (filter (has_res (r_in r)) (a_inwatch A)).
+Proof.
+  intros Hb. unfold prep_resolutions. rewrite Hb.
+  rewrite !res_idxs_app, !res_idxs_mk. cbn [in_kind].
+  destruct (r_anchor r), (r_commit r); cbn; now rewrite ?app_nil_r.
+Qed.
+
+Definition res_complete (r : resolutions) (l : list htlc) : Prop :=
+  forall h, In h l -> h_dust h = false ->
+            has_res (if h_incoming h then r_in r else r_out r) h = true.
+
+Lemma cs_nonempty k c h : In h (conf_set k c) -> cs_empty c = false.
+Proof.
+  unfold cs_empty. destruct k; cbn [conf_set]; intros I.
+  - destruct (c_local c); [destruct I|reflexivity].
+  - destruct (c_local c); [|reflexivity]. destruct (c_remote c); [destruct I|reflexivity].
+  - destruct (c_local c); [|reflexivity]. destruct (c_remote c); [|reflexivity].
+    destruct (c_pending c); [destruct I|reflexivity].
+Qed.
+
+Lemma close_resolvers_out fixed e height t k c r h :
+  is_chain t = false -> r_breach r = false -> wf c -> res_complete r (conf_set k c) ->
+  In h (outs (conf_set k c)) -> h_dust h = false ->
+  cnt (h_idx h) (res_idxs out_kind (close_resolvers fixed e height t k c r)) = 1%nat.
+Proof.
+  intros Ht Hb W RC I D. unfold close_resolvers.
+  apply in_outs in I as I'. destruct I' as [Ic Inc].
+  rewrite (cs_nonempty k c h Ic), andb_false_r.
+  rewrite prep_out_idxs by assumption. rewrite construct_eq by assumption.
+  cbn [merge full_commit split_fail a_timeout a_outwatch]. rewrite !app_nil_r.
+  rewrite cnt_app, !filter_filter_and.
+  pose proof (wf_outs k c W) as ND.
+  rewrite !cnt_idxs_filter by assumption.
+  specialize (RC h Ic D). rewrite Inc in RC. rewrite RC, D. cbn [negb andb].
+  destruct (go_out e height h); reflexivity.
+Qed.
+
+Lemma close_resolvers_in fixed e height t k c r h :
+  is_chain t = false -> r_breach r = false -> wf c -> res_complete r (conf_set k c) ->
+  In h (ins (conf_set k c)) -> h_dust h = false ->
+  cnt (h_idx h) (res_idxs in_kind (close_resolvers fixed e height t k c r)) = 1%nat.
+Proof.
+  intros Ht Hb W RC I D. unfold close_resolvers.
+  apply in_ins in I as I'. destruct I' as [Ic Inc].
+  rewrite (cs_nonempty k c h Ic), andb_false_r.
+  rewrite prep_in_idxs by assumption. rewrite construct_eq by assumption.
+  cbn [merge full_commit split_fail a_claim a_inwatch filter idxs map app].
+  rewrite !app_nil_r, !filter_filter_and.
+  pose proof (wf_ins k c W) as ND.
+  rewrite cnt_idxs_filter by assumption.
+  specialize (RC h Ic D). rewrite Inc in RC. now rewrite RC, D.
+Qed.
+
+Lemma close_final_dust fixed e height t k c r h :
+  is_chain t = false -> wf c -> In h (ins (conf_set k c)) -> h_dust h = true ->
+  cnt (h_idx h) (close_final fixed e height t k c r) = 1%nat.
+Proof.
+  intros Ht W I D. unfold close_final.
+  apply in_ins in I as I'. destruct I' as [Ic Inc].
+  rewrite (cs_nonempty k c h Ic), andb_false_r.
+  rewrite construct_eq by assumption.
+  cbn [merge full_commit split_fail a_indust]. rewrite app_nil_r.
+  rewrite cnt_idxs_filter by (try apply wf_ins; assumption). now rewrite D.
+Qed.
+
+(* ------------------------------------------------------------------ *)
+(* fail-backs                                                          *)
+
+Lemma construct_faildust fixed e height t k c x :
+  is_chain t = false ->
+  (In x (idxs (a_faildust (construct fixed e height t k c))) <->
+   (exists h, In h (outs (conf_set k c)) /\ h_dust h = true /\ h_idx h = x) \/
+   (exists m, In m (cand e height k c) /\ h_dust m = true /\ h_idx m = x)).
+Proof.
+  intros Ht. rewrite construct_eq by assumption.
+  cbn [merge full_commit split_fail a_faildust].
+  rewrite in_idxs_app, !in_idxs_filter. reflexivity.
+Qed.
+
+Lemma construct_dangling fixed e height t k c x :
+  is_chain t = false ->
+  (In x (idxs (a_dangling (construct fixed e height t k c))) <->
+   exists m, In m (cand e height k c) /\ h_dust m = false /\ h_idx m = x).
+Proof.
+  intros Ht. rewrite construct_eq by assumption.
+  cbn [merge full_commit split_fail a_dangling app].
+  rewrite in_idxs_filter. split; intros (m & I & D & E); exists m;
+    (split; [assumption|split; [|assumption]]).
+  - now apply negb_true_iff in D.
+  - now apply negb_true_iff.
+Qed.
+
+Lemma closed_set_in fixed c A x :
+  In x (idxs (closed_failback_set fixed c A)) ->
+  In x (idxs (a_dangling A)) \/ In x (idxs (a_faildust A)).
+Proof.
+  unfold closed_failback_set. rewrite in_idxs_app. intros [I|I]; [now left|right].
+  destruct fixed; [|destruct I]. apply in_idxs_filter in I as (m & I & _ & E).
+  apply in_idxs. now exists m.
+Qed.
+
+Lemma closed_set_dangling fixed c A x :
+  In x (idxs (a_dangling A)) -> In x (idxs (closed_failback_set fixed c A)).
+Proof. unfold closed_failback_set. rewrite in_idxs_app. now left. Qed.
+
+Definition local_dust (c : csets) (x : N) : Prop :=
+  exists l, In l (outs (c_local c)) /\ h_idx l = x /\ h_dust l = true.
+
+Lemma closed_set_fixed c A x :
+  In x (idxs (a_faildust A)) -> ~ local_dust c x ->
+  In x (idxs (closed_failback_set true c A)).
+Proof.
+  intros I NL. unfold closed_failback_set. rewrite in_idxs_app. right.
+  apply in_idxs in I as (m & I & E). apply in_idxs_filter. exists m.
+  split; [assumption|]. split; [|assumption].
+  apply negb_true_iff. apply not_true_is_false. intros Ex.
+  apply existsb_exists in Ex as (l & Il & P). apply andb_true_iff in P as [P1 P2].
+  apply N.eqb_eq in P1. apply NL. exists l. split; [assumption|]. split; congruence.
+Qed.
+
+Lemma closed_set_unfixed c A : closed_failback_set false c A = a_dangling A.
+Proof. unfold closed_failback_set. apply app_nil_r. Qed.
+
+(* no fail-back at/after confirmation for an HTLC with an output there *)
+Lemma close_fail_output fixed e st height t k c r h :
+  is_chain t = false -> wf c ->
+  In h (outs (conf_set k c)) -> h_dust h = false ->
+  ~ In (h_idx h) (close_fail fixed e st height t k c r).
+Proof.
+  intros Ht W I D.
+  assert (NF : ~ In (h_idx h) (idxs (a_faildust (construct fixed e height t k c)))).
+  { rewrite construct_faildust by assumption. intros [(h' & I' & D' & E)|(m & Im & _ & E)].
+    - assert (h' = h) by (eapply nodup_idx_inj; [apply (wf_outs k c W)| | |]; eassumption).
+      subst. congruence.
+    - apply cand_props in Im as (NC & _). apply NC. rewrite E. apply in_idxs. now exists h. }
+  assert (ND : ~ In (h_idx h) (idxs (a_dangling (construct fixed e height t k c)))).
+  { rewrite construct_dangling by assumption. intros (m & Im & _ & E).
+    apply cand_props in Im as (NC & _). apply NC. rewrite E. apply in_idxs. now exists h. }
+  unfold close_fail. rewrite in_app_iff. intros [F|F].
+  - destruct st; try destruct F. apply (proj1 (nodup_n_in _ _)) in F. tauto.
+  - destruct (res_empty r && cs_empty c); [destruct F|].
+    apply (proj1 (nodup_n_in _ _)) in F. apply closed_set_in in F. tauto.
+Qed.
+
+Lemma others_nonempty k c x : In x (idxs (others k c)) -> cs_empty c = false.
+Proof.
+  intros I. apply in_idxs in I as (m & I & _).
+  assert (J : In m (c_remote c) \/ In m (c_pending c)).
+  { destruct k; unfold others in I; rewrite ?in_app_iff, ?in_outs in I; tauto. }
+  unfold cs_empty. destruct (c_local c); [|reflexivity].
+  destruct (c_remote c); [|reflexivity]. destruct (c_pending c); [|reflexivity].
+  destruct J as [[]|[]].
+Qed.
+
+(* which index gets a fail-back in the close step: complete characterisation
+   of the two halves *)
+Definition must_fail (e : env) (k : ckey) (c : csets) (x : N) : Prop :=
+  (exists h, In h (outs (conf_set k c)) /\ h_dust h = true /\ h_idx h = x) \/
+  (In x (idxs (others k c)) /\ ~ In x (idxs (outs (conf_set k c))) /\ no_pre e c x).
+
+Lemma must_fail_nonempty e k c x : must_fail e k c x -> cs_empty c = false.
+Proof.
+  intros [(h & I & _)|(I & _)].
+  - apply in_outs in I as [I _]. eapply cs_nonempty; eassumption.
+  - eapply others_nonempty; eassumption.
+Qed.
+
+(* every must-fail index is in exactly one of HtlcFailDustAction /
+   HtlcFailDanglingAction *)
+Lemma must_fail_split fixed e height t k c x :
+  is_chain t = false -> wf c -> must_fail e k c x ->
+  let A := construct fixed e height t k c in
+  (In x (idxs (a_faildust A)) /\ ~ In x (idxs (a_dangling A))) \/
+  (~ In x (idxs (a_faildust A)) /\ In x (idxs (a_dangling A))).
+Proof.
+  intros Ht W M A. subst A.
+  rewrite construct_faildust, construct_dangling by assumption.
+  destruct M as [(h & I & D & E)|(I & NC & NP)].
+  - left. split; [left; now exists h|].
+    intros (m & Im & _ & Em). apply cand_props in Im as (NC & _). apply NC.
+    rewrite Em, <- E. apply in_idxs. now exists h.
+  - pose proof (cand_covers e height k c x I NC NP) as Ic.
+    apply in_idxs in Ic as (m & Im & Em).
+    pose proof (cand_nodup e height k c W) as ND.
+    destruct (h_dust m) eqn:D.
+    + left. split; [right; now exists m|].
+      intros (m' & Im' & D' & Em').
+      assert (m' = m) by (eapply nodup_idx_inj; [exact ND| | |]; congruence).
+      subst. congruence.
+    + right. split; [|now exists m].
+      intros [(h & Ih & _ & Eh)|(m' & Im' & D' & Em')].
+      * apply NC. rewrite <- Eh. apply in_idxs. now exists h.
+      * assert (m' = m) by (eapply nodup_idx_inj; [exact ND| | |]; congruence).
+        subst. congruence.
+Qed.
+
+(* direct path (no broadcast), today's code: exactly once *)
+Lemma close_fail_direct_once e height t k c r x :
+  is_chain t = false -> wf c -> must_fail e k c x ->
+  cnt x (close_fail false e SDefault height t k c r) = 1%nat.
+Proof.
+  intros Ht W M. unfold close_fail.
+  rewrite (must_fail_nonempty e k c x M), andb_false_r.
+  rewrite closed_set_unfixed, cnt_app.
+  destruct (must_fail_split false e height t k c x Ht W M) as [[A B]|[A B]].
+  - rewrite cnt_nodup_in, cnt_nodup_notin by assumption. reflexivity.
+  - rewrite cnt_nodup_notin, cnt_nodup_in by assumption. reflexivity.
+Qed.
+
+(* with the candidate fix, direct path: at least once *)
+Lemma close_fail_direct_fixed fixed e height t k c r x :
+  is_chain t = false -> wf c -> must_fail e k c x ->
+  (1 <= cnt x (close_fail fixed e SDefault height t k c r))%nat.
+Proof.
+  intros Ht W M. unfold close_fail.
+  rewrite (must_fail_nonempty e k c x M), andb_false_r. rewrite cnt_app.
+  destruct (must_fail_split fixed e height t k c x Ht W M) as [[A B]|[A B]].
+  - rewrite cnt_nodup_in by assumption. lia.
+  - rewrite (cnt_nodup_in x (idxs (closed_failback_set _ _ _)))
+      by now apply closed_set_dangling. lia.
+Qed.
+
+(* what the node cancels back when it decides to broadcast *)
+Lemma trigger_faildust_sub fixed e height t c x :
+  In x (idxs (a_faildust (check_local fixed e height t c false))) ->
+  local_dust c x \/
+  (exists m, In m (remote_merged c) /\ h_dust m = true /\ h_idx m = x /\
+             ~ In x (idxs (outs (c_local c)))).
+Proof.
+  unfold check_local. cbv zeta.
+  match goal with |- context [merge ?X _] => set (la' := X) end.
+  assert (S : forall y, In y (idxs (a_faildust la')) ->
+                        In y (idxs (filter h_dust (outs (c_local c))))).
+  { intros y. subst la'. unfold check_commit.
+    repeat match goal with
+           | |- context [if ?b then _ else _] => destruct b
+           end; cbv zeta; cbn [a_faildust no_actions]; unfold idxs; cbn [map In]; tauto. }
+  cbn [merge a_faildust]. rewrite in_idxs_app. intros [I|I].
+  - left. apply S in I. apply in_idxs_filter in I as (l & Il & D & E). now exists l.
+  - right. rewrite check_dangling_eq in I. cbn [split_fail a_faildust] in I.
+    apply in_idxs_filter in I as (m & Im & D & E). exists m.
+    unfold dangling_cand in Im. apply filter_In in Im as [Im _].
+    apply filter_In in Im as [Im Q]. apply negb_true_iff in Q. apply mem_idx_false in Q.
+    rewrite E in Q. tauto.
+Qed.
+
+Lemma trigger_faildust_local e height t c x :
+  t = TUser \/ (t = TChain /\ acts_empty (check_local true e height TChain c false) = false) ->
+  local_dust c x ->
+  In x (idxs (a_faildust (check_local true e height t c false))).
+Proof.
+  intros Ht (l & Il & E & D).
+  assert (F : In x (idxs (a_faildust (full_commit e height (c_local c))))).
+  { cbn [full_commit a_faildust]. apply in_idxs_filter. now exists l. }
+  unfold check_local. cbn [merge a_faildust]. rewrite in_idxs_app. left.
+  destruct Ht as [->|[-> NE]].
+  - cbn [is_chain]. rewrite !andb_false_r. now rewrite check_commit_nochain.
+  - unfold check_local in NE.
+    destruct (have_chain_actions e height (c_local c)) eqn:Hv.
+    + rewrite check_commit_have by assumption.
+      rewrite (full_commit_nonempty0 e height (c_local c) l) by (apply in_outs in Il; tauto).
+      rewrite andb_false_r. assumption.
+    + rewrite check_commit_idle in * by assumption.
+      destruct (acts_empty (check_dangling e height c false)) eqn:D'.
+      * exfalso. cbn [acts_empty no_actions a_timeout a_claim a_faildust a_outwatch
+                      a_inwatch a_indust a_dangling nil_b andb negb] in NE.
+        rewrite acts_empty_merge, D' in NE. cbn in NE. discriminate.
+      * cbn [acts_empty no_actions a_timeout a_claim a_faildust a_outwatch
+             a_inwatch a_indust a_dangling nil_b andb negb is_chain].
+        now rewrite check_commit_nochain.
 Qed.
